@@ -29,7 +29,7 @@ def build_cases(run, rng, nworlds, nqueries, ndocs=(3, 7), depth=2, nletters=2, 
                     aq = qgen(rng) if qgen else world.rand_query(rng, rng.randrange(0, depth + 1), nletters=nletters,
                                                                  scored_only=scored_only, ops=ops)
                     q = world.to_query(aq)
-                    obs = qobs.obs_paths(s, q, paths, limits=limits, cmp=cmp, alt=alt)
+                    obs = qobs.obs_paths(s, q, paths, limits=limits, cmp=cmp, alt=alt, aq=aq)
                     if kinds:
                         obs = [o for o in obs if o["kind"] in kinds]
                     qs.append({"q": aq, "obs": obs})
@@ -92,6 +92,16 @@ def classify(run, cases, meta, rejects):
         if (ci, qi, oi) not in classes and o["kind"] == "ranked" and "alt" in o \
                 and [list(h) for h in exp.get("hits", [])] == o["alt"] and o["alt"] != o["hits"]:
             classes[(ci, qi, oi)] = "wrapping-replace-unscaled"
+    # ... the same for the matched terms of a limited search (a pruned branch no longer reports its term)
+    mt = [(ci, qi, oi) for ci, qi, oi, exp in rejects if (ci, qi, oi) not in classes
+          and cases[ci]["qs"][qi]["obs"][oi]["kind"] == "matchedterms" and "alt" in cases[ci]["qs"][qi]["obs"][oi]]
+    if mt:
+        acases = [{"idx": cases[ci]["idx"], "qs": [{"q": cases[ci]["qs"][qi]["q"], "obs": [
+            dict(cases[ci]["qs"][qi]["obs"][oi], hits=cases[ci]["qs"][qi]["obs"][oi]["alt"])]}]} for ci, qi, oi in mt]
+        bad = set(r[0] for r in qobs.judge(run, acases, name="QueryCheck-alt"))
+        for n, key in enumerate(mt):
+            if n not in bad:
+                classes[key] = "wrapping-replace-unscaled"
     return classes
 
 
